@@ -8,7 +8,7 @@ set_option linter.unusedSimpArgs false
 theorem zr_step {g sh Q log sh' i push evs} (h : InvP g sh (i :: Q) log)
     (he : exec sh i = some (sh', push, evs))
     (hguard : ∀ f, i = .closeLock f → g = true → ∀ j ∈ Q, isExtz j = false) :
-    g = true → sh'.closed = true → sh'.forced = false → ∀ j ∈ push ++ Q, ∀ id, zeroRef j = some id →
+    Eff g sh' = true → sh'.closed = true → sh'.forced = false → ∀ j ∈ push ++ Q, ∀ id, zeroRef g j = some id →
       ∀ n ∈ sh'.nodes, n.id = id → n.ref ≤ 0 := by
   by_cases hsc : sh.closed = true
   · have hall := h.cl hsc
@@ -17,7 +17,39 @@ theorem zr_step {g sh Q log sh' i push evs} (h : InvP g sh (i :: Q) log)
     have hzr := h.zr
     have hfo := h.fo
     simp only [List.mem_cons, forall_eq_or_imp] at hzr hfo
-    cases i <;> simp only [openOnly, reduceCtorEq] at hi <;> exec_split he
+    cases i
+    case extz eid k =>
+      -- the zero branch of `unRefExternal` on a closed cache
+      simp only [exec, hsc, if_true] at he
+      intro hg hc hf j hj id hz n hn hid
+      by_cases hre : (sh.recheck && refNonZero sh.nodes eid) = true
+      · rw [if_pos hre] at he
+        simp only [Option.some.injEq, Prod.mk.injEq] at he; obtain ⟨rfl, rfl, rfl⟩ := he
+        simp only [List.cons_append, List.nil_append, List.mem_cons] at hj
+        rcases hj with rfl | hj
+        · simp [zeroRef] at hz
+        · exact (hzr hg hsc hf).2 j hj id hz n hn hid
+      · rw [if_neg hre] at he
+        simp only [Option.some.injEq, Prod.mk.injEq] at he; obtain ⟨rfl, rfl, rfl⟩ := he
+        simp only [List.cons_append, List.nil_append, List.mem_cons] at hj
+        rcases hj with rfl | rfl | hj
+        · simp only [zeroRef, Option.some.injEq] at hz
+          subst hz
+          cases g with
+          | true => exact (hzr hg hsc hf).1 eid (by simp [zeroRef]) n hn hid
+          | false =>
+            have hrc : sh.recheck = true := by simpa [Eff] using hg
+            cases hfind : findId sh.nodes eid with
+            | none => exact absurd hid (findId_none hfind n hn)
+            | some n0 =>
+              have := found_unique h.ids.1 hfind hn hid
+              subst this
+              simp only [refNonZero, hfind, hrc, Bool.true_and, decide_eq_true_eq, ne_eq, Decidable.not_not] at hre
+              omega
+        · simp [zeroRef] at hz
+        · exact (hzr hg hsc hf).2 j hj id hz n hn hid
+    all_goals (simp only [openOnly, reduceCtorEq] at hi)
+    all_goals exec_split he
     all_goals (intro hg hc hf j hj id hz n hn hid)
     all_goals (try simp only [] at hc hf hn)
     all_goals (simp only [List.mem_append, List.mem_cons, List.mem_map, List.mem_flatMap, List.not_mem_nil,
@@ -50,7 +82,6 @@ theorem zr_step {g sh Q log sh' i push evs} (h : InvP g sh (i :: Q) log)
     all_goals first
       | (rw [hso] at hc; cases hc)
       | (exfalso
-         have hgd := hguard _ rfl hg
          simp only [List.mem_append, List.mem_cons, List.mem_map, List.mem_flatMap, List.not_mem_nil,
            or_false, false_or] at hj
          rcases hj with ⟨a, _, ha⟩ | hj
@@ -59,7 +90,7 @@ theorem zr_step {g sh Q log sh' i push evs} (h : InvP g sh (i :: Q) log)
             | (subst ha; simp [zeroRef] at hz)
             | (simp at ha; rcases ha with rfl | rfl | rfl <;> simp [zeroRef] at hz)
             | (simp at ha; subst ha; simp [zeroRef] at hz)
-         · have h1 := hgd j hj
-           have h2 := hop.2 j hj
-           cases j <;> simp_all [zeroRef, isExtz, closedOnly])
+         · have h2 := hop.2 j hj
+           cases j <;> simp [zeroRef, closedOnly] at hz h2
+           all_goals (have := hguard _ rfl hz.1 _ hj; simp [isExtz] at this))
 end GoLevel.CacheM
